@@ -674,6 +674,70 @@ func c16Run(c *core.Ctx) {
 			}
 		}
 	}
+	// (1e) brace-less chains: every chain of <= 3 (4) brace-less compound statements (while / for / if-then / if-else /
+	// then-branch with an else behind it) around an inner statement that asks (an expression statement, a block, a
+	// function expression argument, a brace-less return), at top level, in a function body and in a block. A body
+	// without braces opens no context, however many loops and conditionals are stacked.
+	{
+		type bl struct {
+			name string
+			wrap func(s *gen.Node) *gen.Node
+		}
+		bls := []bl{
+			{"while", func(s *gen.Node) *gen.Node { return gen.While(gen.I("c"), s) }},
+			{"for", func(s *gen.Node) *gen.Node {
+				return gen.For(gen.LetExpr("i", gen.N("0")), gen.Bi("<", gen.I("i"), gen.N("2")), gen.Po("++", gen.I("i")), s)
+			}},
+			{"then", func(s *gen.Node) *gen.Node { return gen.If(gen.I("c"), s, nil) }},
+			{"else", func(s *gen.Node) *gen.Node { return gen.If(gen.I("c"), gen.Ex(gen.I("t")), s) }},
+			{"thenelse", func(s *gen.Node) *gen.Node { return gen.If(gen.I("c"), s, gen.Ex(gen.Ca(gen.I("f"), gen.I("a")))) }},
+		}
+		fn := func(b ...*gen.Node) *gen.Node { return gen.F("", nil, b...) }
+		inner := []func() *gen.Node{
+			func() *gen.Node { return gen.Ex(gen.Bi("+", gen.I("a"), gen.Ca(gen.I("f"), gen.I("b")))) },
+			func() *gen.Node { return gen.Block(gen.Ex(gen.I("u")), gen.Ex(gen.Ca(gen.I("f"), gen.I("b")))) },
+			func() *gen.Node { return gen.Ex(gen.Ca(gen.I("f"), gen.I("a"), fn(gen.Ex(gen.I("u")), gen.Ret(gen.I("a"))))) },
+			func() *gen.Node { return gen.Ret(gen.Ca(gen.I("f"), gen.I("b"))) },
+		}
+		maxd := 3
+		if c.Thorough() {
+			maxd = 4
+		}
+		for d := 1; d <= maxd; d++ {
+			idx := make([]int, d)
+			for {
+				for ii, mk := range inner {
+					if !c.Next() || c.Tick() {
+						continue
+					}
+					s := mk()
+					name := fmt.Sprintf("inner%d", ii)
+					for l := d - 1; l >= 0; l-- {
+						s = bls[idx[l]].wrap(s)
+						name = bls[idx[l]].name + "/" + name
+					}
+					c.Inc("braceless_chain_programs")
+					if ii != 3 { // a return statement needs a function around it
+						runProg([]*gen.Node{gen.Ex(gen.I("u")), s, gen.Ex(gen.Ca(gen.I("v")))}, "braceless:top:"+name, 0)
+						runProg([]*gen.Node{gen.Block(gen.Ex(gen.I("u")), gen.Clone(s), gen.Ex(gen.Ca(gen.I("v")))), gen.Ex(gen.I("t"))}, "braceless:block:"+name, 0)
+					}
+					runProg([]*gen.Node{gen.Func("g", []string{"p"}, gen.Ex(gen.I("u")), gen.Clone(s), gen.Ex(gen.Ca(gen.I("v")))), gen.Ex(gen.I("t"))}, "braceless:function:"+name, 0)
+				}
+				i := d - 1
+				for i >= 0 {
+					idx[i]++
+					if idx[i] < len(bls) {
+						break
+					}
+					idx[i] = 0
+					i--
+				}
+				if i < 0 {
+					break
+				}
+			}
+		}
+	}
 	// (2) statement families (brace-less bodies, function expressions in every position)
 	level := 1
 	if c.Thorough() {
